@@ -61,13 +61,13 @@ def replay(c):
 
 def describe():
     return dict(
-        rule='every history of <= K operations (8 kinds, all operands solver decisions) per element class, iterative deepening '
-             'within a path budget; distinct = distinct operation sequences executed on the real code; non-trivial = all (every path ends in to_string)',
+        rule='every operation (10 kinds, all operands solver decisions) from every state reachable within the depth bound per element class, '
+             'breadth-first within a path budget; distinct = distinct (state, operation) transitions executed on the real code; non-trivial = all (every path ends in to_string)',
         functions=['xmlelement/xmlelement.py:XMLElement.add_child', 'XMLElement.remove', 'XMLElement.replace_child',
                    'XMLElement.__setattr__', 'XMLElement._convert_attribute_to_child', 'XMLElement.to_string',
                    'XMLElement._final_checks', 'xmlelement/xmlchildcontainer.py:XMLChildContainer.add_element',
                    'XMLChildContainer.check_required_elements', 'XMLChildContainer._check_choices_intelligently'],
-        bounds=dict(history_length='wide pass (8 kinds) K=2 (3 thorough, tiny alphabets); deep pass (ADD REMOVE REPLACE DOTSET DOTNONE) K=3 (4 thorough); path budgets 6000 quick / 120000 thorough per class', forward='[-1,2] quick, [-2,4] thorough', positions='0..3 plus one absent-child class',
+        bounds=dict(exploration='breadth-first over reachable states (structural fingerprints merge equal states), depth <= 8 quick / 10 thorough; every state expanded by all 10 operation kinds at depth <= 2 (3), by ADD REMOVE REPLACE DOTSET DOTNONE SELF deeper; path budget 3500 quick / 45000 thorough per class (breadth-first order: the cut removes the deepest states)', forward='[-1,2] quick, [-2,4] thorough', positions='0..3 plus one absent-child class',
                     alphabet='symmetry-reduced in quick (first, second, last of interchangeable choice leaves), full in thorough',
                     outside='longer histories; nested documents (C08 harness)'),
         assumptions=['children are built with xsd_check=False so exactly one level is under test',
